@@ -6,6 +6,9 @@ package main
 import (
 	"context"
 	"fmt"
+	"io"
+	"net"
+	"syscall"
 	"os"
 	"strings"
 	"sync/atomic"
@@ -1038,6 +1041,85 @@ func runC06(r *Run) {
 		r.st.Evaluations++
 		f.close()
 	}
+	r.c06UnresponsiveHost()
+}
+
+// c06UnresponsiveHost: after the connection is lost the host no longer answers connection attempts at all (no RST, no
+// SYN-ACK: a loopback listener with backlog 0 and a full accept queue). Every recovery attempt must give up after the
+// dial timeout, and a request call made meanwhile must return within the configured bounds.
+func (r *Run) c06UnresponsiveHost() {
+	ln, err := net.Listen("tcp", "127.0.0.1:0")
+	if err != nil {
+		return
+	}
+	defer ln.Close()
+	if rc, err := ln.(*net.TCPListener).SyscallConn(); err == nil {
+		rc.Control(func(fd uintptr) { syscall.Listen(int(fd), 0) })
+	}
+	tc := newTestClient()
+	errc := make(chan error, 1)
+	go func() {
+		errc <- tc.dial("tcp://"+ln.Addr().String(), 1, client.DialTimeout(fDial), client.Keepalive(time.Hour), client.KeepaliveTimeout(2*time.Hour))
+	}()
+	first, err := ln.Accept()
+	if err != nil {
+		return
+	}
+	first.SetReadDeadline(time.Now().Add(time.Second))
+	io.ReadFull(first, make([]byte, 2))
+	if e := <-errc; e != nil {
+		first.Close()
+		return
+	}
+	// fill the accept queue until a connect stays unanswered
+	var fillers []net.Conn
+	unresponsive := false
+	for i := 0; i < 16 && !unresponsive; i++ {
+		c, err := net.DialTimeout("tcp", ln.Addr().String(), 300*time.Millisecond)
+		if err != nil {
+			unresponsive = true
+		} else {
+			fillers = append(fillers, c)
+		}
+	}
+	cleanup := func() {
+		done := make(chan struct{})
+		go func() { defer close(done); defer func() { recover() }(); tc.cli.Close(nil) }()
+		select {
+		case <-done:
+		case <-time.After(3 * time.Second):
+		}
+		for _, c := range fillers {
+			c.Close()
+		}
+	}
+	r.st.Evaluations++
+	if !unresponsive {
+		r.count("c06.unresponsive-host.setup-failed")
+		first.Close()
+		cleanup()
+		return
+	}
+	r.count("c06.unresponsive-host")
+	first.Close()
+	time.Sleep(500 * time.Millisecond) // the recovery is in an attempt (or between attempts)
+	cs := fmt.Sprintf("tcp: drop, then the host leaves connection attempts unanswered (accept queue full, backlog 0); DialTimeout %v, RequestTimeout %v", fDial, fReq)
+	for k := 0; k < 3; k++ {
+		t0 := time.Now()
+		ch := tc.doAsync(uint32(60+k), nil, fReq)
+		res, ok := awaitDo(ch, fReq+fDial+2*time.Second)
+		if !ok {
+			r.violate(Violation{What: fmt.Sprintf("a request call made while the host leaves connection attempts unanswered did not return within %v", fReq+fDial+2*time.Second), Case: cs,
+				Extra: strings.Join(tc.log.snapshot(), "\n")})
+			break
+		}
+		if res.pkt != nil {
+			r.violate(Violation{What: "a request call succeeded although the host is unreachable", Case: cs})
+		}
+		_ = t0
+		time.Sleep(250 * time.Millisecond)
+	}
+	cleanup()
 }
 
 func (f *fsession) observeNoProbe() lifeObs {
